@@ -205,4 +205,109 @@ theorem run_bridge (g : Cfg) (pre : List Op) (hpre : ∀ op ∈ pre, op.headerPh
   unfold HeaderOnly at h1
   rw [← h1]
 
+/-! ### results, and a ReadFrom after the body phase -/
+
+theorem run_cons_res (g : Cfg) (r : R) (op : Op) (ops : List Op) (h : (step g r op).2 ≠ some .panic) :
+    (run g r (op :: ops)).2 = (step g r op).2 :: (run g (step g r op).1 ops).2 := by
+  simp only [run]
+  generalize step g r op = p at *
+  obtain ⟨r', o⟩ := p
+  have : (o == some WRes.panic) = false := by simpa using h
+  simp [this]
+
+/-- the payloads of the writes whose result (as the driver prints it: `n=`/`err=`) is a success -/
+def acceptedOf : List BOp → List (Option WRes) → List Bytes
+  | .write d :: ops, some (.ok _) :: rs => d :: acceptedOf ops rs
+  | _ :: ops, _ :: rs => acceptedOf ops rs
+  | _, _ => []
+
+/-- `accepted` of the theorems is read off the results the driver prints and compares -/
+theorem runB_results (g : Cfg) (bops : List BOp) (r : R) :
+    (runB g r bops).2 = acceptedOf bops (run g r (bops.map BOp.toOp)).2 := by
+  induction bops generalizing r with
+  | nil => rfl
+  | cons op t ih =>
+    cases op with
+    | write d =>
+      have hnp : (step g r (BOp.write d).toOp).2 ≠ some .panic := by
+        simp only [BOp.toOp, step]
+        intro hc
+        exact write_np g r d (by simpa using hc)
+      rw [List.map_cons, run_cons_res g r _ _ hnp]
+      simp only [BOp.toOp, step, runB]
+      have hnp' := write_np g r d
+      generalize write g r d = p at *
+      obtain ⟨r', w⟩ := p
+      dsimp only at hnp' ⊢
+      rw [ih r']
+      cases w <;> simp [acceptedOf]
+    | flush => rw [List.map_cons, run_cons_res g r _ _ (by simp [BOp.toOp, step])]; simp only [runB, BOp.toOp, step, acceptedOf]; exact ih _
+    | setH k v => rw [List.map_cons, run_cons_res g r _ _ (by simp [BOp.toOp, step])]; simp only [runB, BOp.toOp, step, acceptedOf]; exact ih _
+    | addH k v => rw [List.map_cons, run_cons_res g r _ _ (by simp [BOp.toOp, step])]; simp only [runB, BOp.toOp, step, acceptedOf]; exact ih _
+    | delH k => rw [List.map_cons, run_cons_res g r _ _ (by simp [BOp.toOp, step])]; simp only [runB, BOp.toOp, step, acceptedOf]; exact ih _
+
+/-- the results of the header phase come first and are all `none` or `ok 0`; then those of the rest -/
+theorem run_pre_res (g : Cfg) (pre rest : List Op) (r : R) (hpre : ∀ op ∈ pre, op.headerPhase = true) (h : HeaderOnly r) :
+    (run g r (pre ++ rest)).2 = (run g r pre).2 ++ (run g (run g r pre).1 rest).2 ∧ (run g r pre).2.length = pre.length := by
+  induction pre generalizing r with
+  | nil => simp [run]
+  | cons op t ih =>
+    obtain ⟨h1, h2⟩ := step_headerPhase g r op (hpre op (List.mem_cons_self ..)) h
+    obtain ⟨i1, i2⟩ := ih (step g r op).1 (fun o ho => hpre o (List.mem_cons_of_mem _ ho)) h1
+    rw [List.cons_append, run_cons_res g r op _ h2, run_cons_res g r op t h2, run_cons g r op t h2, i1]
+    exact ⟨by simp, by simp [i2]⟩
+
+theorem run_body_append (g : Cfg) (bops : List BOp) (rest : List Op) (r : R) :
+    (run g r (bops.map BOp.toOp ++ rest)).1 = (run g (runB g r bops).1 rest).1 := by
+  induction bops generalizing r with
+  | nil => rfl
+  | cons op t ih =>
+    cases op with
+    | write d =>
+      have hnp : (step g r (BOp.write d).toOp).2 ≠ some .panic := by
+        simp only [BOp.toOp, step]
+        intro hc
+        exact write_np g r d (by simpa using hc)
+      rw [List.map_cons, List.cons_append, run_cons g r _ _ hnp, ih]
+      simp only [BOp.toOp, step, runB]
+    | flush => rw [List.map_cons, List.cons_append, run_cons g r _ _ (by simp [BOp.toOp, step]), ih]; simp only [runB]
+    | setH k v => rw [List.map_cons, List.cons_append, run_cons g r _ _ (by simp [BOp.toOp, step]), ih]; simp only [runB]
+    | addH k v => rw [List.map_cons, List.cons_append, run_cons g r _ _ (by simp [BOp.toOp, step]), ih]; simp only [runB]
+    | delH k => rw [List.map_cons, List.cons_append, run_cons g r _ _ (by simp [BOp.toOp, step]), ih]; simp only [runB]
+
+theorem run_single (g : Cfg) (r : R) (op : Op) : (run g r [op]).1 = (step g r op).1 := by
+  simp only [run]
+  generalize step g r op = p
+  obtain ⟨r', o⟩ := p
+  dsimp only
+  split <;> rfl
+
+/-- a non-empty body phase runs the prelude itself -/
+theorem runB_prelude_ne (g : Cfg) (bops : List BOp) (r : R) (hne : bops ≠ []) (hb : bodyStart bops) :
+    runB g (prelude g r) bops = runB g r bops := by
+  cases bops with
+  | nil => exact absurd rfl hne
+  | cons op t =>
+    cases op with
+    | write d => simp only [runB]; rw [write_prelude g r d hb]
+    | flush => simp only [runB, BOp.toOp, step]; rw [flushOp_prelude]
+    | setH k v => cases hb
+    | addH k v => cases hb
+    | delH k => cases hb
+
+/-- **bridge for programs `header phase ++ non-empty body phase ++ [ReadFrom]`**: the state the driver reaches after the
+ReadFrom is `readFrom` applied to the theorems' end state -/
+theorem run_bridge_readFrom (g : Cfg) (pre : List Op) (hpre : ∀ op ∈ pre, op.headerPhase = true)
+    (bops : List BOp) (hne : bops ≠ []) (hb : bodyStart bops) (k : RKind) (data : Bytes) :
+    (run g {} (pre ++ (bops.map BOp.toOp ++ [.readFrom k data]))).1 =
+      (readFrom g (runB g (checkChunked g (writeHeader200
+        (start (run g {} pre).1.header (run g {} pre).1.statusCode (run g {} pre).1.status))) bops).1 k data).1 := by
+  obtain ⟨h1, h2⟩ := run_pre g pre (bops.map BOp.toOp ++ [.readFrom k data]) {} hpre rfl
+  rw [h2, run_body_append, run_single]
+  have := runB_prelude_ne g bops (run g {} pre).1 hne hb
+  unfold prelude at this
+  unfold HeaderOnly at h1
+  rw [← h1, this]
+  simp only [step]
+
 end Resp
